@@ -140,7 +140,21 @@ func runC15(c *Ctx) {
 	c.count("file_effect_sites", nsink)
 	c.floor("C15.R2", 4)
 
-	gen := findFunc(p, "FSEventHandler", "generate")
+	// the per-file generate method: the function of the package that calls generator.Generate
+	var gen *ast.FuncDecl
+	for _, fd := range allFuncDecls(p) {
+		if fd.Body == nil {
+			continue
+		}
+		ast.Inspect(fd.Body, func(n ast.Node) bool {
+			if call, ok := n.(*ast.CallExpr); ok {
+				if fn := calleeOf(info, call); fn != nil && fullName(fn) == pkgGenerator+".Generate" {
+					gen = fd
+				}
+			}
+			return true
+		})
+	}
 	if gen == nil {
 		c.viol("C15.R3", "anchor-lost:FSEventHandler.generate", "", "the per-file generate method was not found")
 	} else {
